@@ -326,13 +326,19 @@ def _walk_body(ctx, maxsteps):
     return body
 
 
+# verdicts of the circuit harness that are about packet-ID translation (forward: emitted wire IDs, injected IDs, ping rewriting;
+# backward: the IDs acknowledgements are translated to)
+_CIRCUIT_SIGS = ("ping:", "emit:", "inject:", "acks:", "retake:id", "drop:ack-id")
+
+
 def _circuit_ping(ctx, n):
     """the second place the forward translation is applied: ProxiedCircuit rewrites StartPingCheck.OldestUnacked with it.  Driven
     through C05's circuit harness (both directions, injections, drops); only the ping verdicts belong to this property."""
     from hypothesis import strategies as st
     from checks import c05
     ev = st.one_of(c05.EV, st.tuples(st.just("ping"), st.sampled_from([c05.V, c05.S]), st.sampled_from(["oldest", "newest", "next"])),
-                   st.tuples(st.just("inject"), st.sampled_from([c05.V, c05.S]), st.booleans()))
+                   st.tuples(st.just("inject"), st.sampled_from([c05.V, c05.S]), st.booleans()),
+                   st.tuples(st.just("pack"), st.sampled_from([c05.V, c05.S]), st.sampled_from(["injonly", "mix", "all"]), st.sampled_from(["realonly", "mix", "none"])))
 
     def body(case):
         wire, events = case["wire"], case["events"]
@@ -345,14 +351,15 @@ def _circuit_ping(ctx, n):
                 continue
             if e[0] == "ping":
                 pings += 1
-            res.extend(x for x in r if x[0].startswith("ping:"))
+            res.extend(x for x in r if x[0].startswith(_CIRCUIT_SIGS))
             if r:
                 break
         h.teardown()
         after_inj = "inject" in [t[0] for t in h.trace] and pings > 0
         ctx.case(case, nontrivial=after_inj, classes=["circuit_ping"] + (["ping_after_injection"] if after_inj else []))
         return res
-    hyp_run(ctx, st.fixed_dictionaries({"wire": st.booleans(), "events": st.lists(ev, min_size=3, max_size=40)}), body, n)
+    hyp_run(ctx, st.fixed_dictionaries({"wire": st.booleans(), "events": st.tuples(st.integers(0, 1), st.lists(ev, min_size=3, max_size=40)).map(
+        lambda t: ([("zero_based",)] if t[0] == 0 else []) + list(t[1]))}), body, n)
 
 
 def run_shard(ctx, shard):
@@ -373,7 +380,7 @@ def replay(ctx, case):
             r = h.step(tuple(e))
             if r is None:
                 continue
-            res.extend(x for x in r if x[0].startswith("ping:"))
+            res.extend(x for x in r if x[0].startswith(_CIRCUIT_SIGS))
             if r:
                 break
         h.teardown()
